@@ -128,6 +128,21 @@ def rule_a1(F):
         def copies(t):
             d = mir.callee_def(t) or ""
             return "ind" in t["f"] or hir.last(d) in ("copy_nonoverlapping", "copy", "clone")
+
+        def tag_param_of(path):
+            """a helper that writes the tag it is handed (`write_discriminant(out, NONE)`): the 1-based position of that parameter"""
+            hb_ = F.body(path) if path and F.has(path) else None
+            if hb_ is None or not hb_.mir or not path.startswith("value::list::"):
+                return None
+            for _, t2 in mir.calls(hb_):
+                d2 = mir.callee_def(t2) or ""
+                if hir.last(d2) in ("write", "write_unaligned", "write_volatile") and "ptr" in d2 and len(t2["args"]) > 1 and mir.is_place_op(t2["args"][1]):
+                    root_, _p = mir.origin(hb_, mir.Defs(hb_), t2["args"][1][1])
+                    if root_.startswith("arg") and root_[3:].isdigit():
+                        l2 = int(root_[3:])
+                        if 1 <= l2 <= hb_.mir.get("argc", 0) and "u8" in str(hb_.mir["locals"][l2].get("ty") or ""):
+                            return l2
+            return None
         bad_pre = []
 
         def flow(body, states, depth=0):
@@ -146,6 +161,12 @@ def rule_a1(F):
                 out = set(sin[bi])
                 if t["k"] == "call":
                     tg = tag_of(t)
+                    if tg is None:
+                        k_ = tag_param_of(mir.callee(t) or "")
+                        if k_ is not None and len(t["args"]) >= k_:
+                            c_k = mir.op_const(t["args"][k_ - 1])
+                            if c_k is not None and isinstance(c_k.get("v"), int):
+                                tg = c_k["v"]
                     hb = F.body(mir.callee(t) or "") if (mir.callee(t) or "").startswith("value::list::") and depth < 2 else None
                     if hb is not None and hb.mir and not (mir.callee(t) or "").startswith("value::list::ffi::") and \
                             not any(tag_of(t2) is not None or copies(t2) for _, t2 in mir.calls(hb)):
@@ -1057,6 +1078,48 @@ def rule_a12(F):
     return r
 
 
+def rule_a13(F):
+    """Values cross the boundary as independent copies: the generated clone functions copy a value bit by bit only where that IS a
+    copy - the decision is made by the recursive predicate `needs_clone` (does any component, at any depth, have a clone function),
+    or the value is a leaf (the arm for registered types without one).  A shortcut that looks one level deep (`fields.all(|f|
+    get_runtime_clone(f).is_none())`) bit-copies `Result[Option[String], u32]`: two owners of one string buffer, and the copy that
+    crosses the boundary dangles when the other one is dropped."""
+    r = RuleResult("C05.A13", "generated clone bodies: every bitwise copy is decided by the recursive needs_clone predicate or made for a leaf type", floor=2)
+    bodies = [b for b in F.bodies_in(["src/lir/lower/clones.rs"]) if b.mir and "::tests::" not in b.path]
+    n = 0
+    for b in bodies:
+        sites = [bi for bi, t in mir.calls(b) if hir.last(mir.callee(t) or "") == "emit_memcpy"]
+        sites += [bi for bi, blk in enumerate(b.blocks) for st in blk["stmts"] if st["k"] == "assign" and st["rv"]["k"] == "agg"
+                  and hir.last(st["rv"].get("adt") or "") == "Instruction" and st["rv"].get("variant") == "Copy"]
+        if not sites:
+            continue
+        defs = mir.Defs(b)
+        dom = mir.dominators(b)
+        nc = {bi for bi, t in mir.calls(b) if hir.last(mir.callee(t) or "") == "needs_clone"}
+        for sb in sorted(set(sites)):
+            n += 1
+            how = None
+            for di in dom[sb]:
+                t = b.blocks[di]["term"]
+                if t["k"] != "switch" or not mir.is_place_op(t["o"]):
+                    continue
+                l = t["o"][1][0]
+                if mir.back_calls(b, defs, l) & nc:
+                    how = "needs_clone"
+                    break
+                for d in defs.whole_defs(l):
+                    if d[2] == "assign" and d[3]["rv"]["k"] == "discr" and hir.last(str(d[3]["rv"].get("ty") or "").replace("&", "").strip()) == "Ty":
+                        how = how or "leaf arm of the match on the kind of the type"
+            r.inst("%s memcpy #%d" % (hir.last(b.path), n), {"fn": b.path, "line": b.blocks[sb]["term"].get("line"), "decided_by": how})
+            if how is None:
+                r.bad(b.path, "bitwise copy not decided by needs_clone", relfile(b.file), b.blocks[sb]["term"].get("line") or b.line,
+                      "%s emits a memcpy of (part of) a value that is neither behind the recursive predicate needs_clone nor the leaf case of the match on the type's kind: a component "
+                      "that owns something one level further down (`Result[Option[String], u32]`) is duplicated without its clone function - two owners, one release too many" % hir.last(b.path))
+    if n == 0:
+        r.missing("emit_memcpy sites in src/lir/lower/clones.rs")
+    return r
+
+
 def rules(ctx):
     F = ctx["F"]
-    return [rule_a1(F), rule_a2(F), rule_a3(F), rule_a4(F), rule_a5(F), rule_a6(F), rule_a7(F), rule_a8(F), rule_a9(F), rule_a10(F), rule_a11(F), rule_a12(F)]
+    return [rule_a1(F), rule_a2(F), rule_a3(F), rule_a4(F), rule_a5(F), rule_a6(F), rule_a7(F), rule_a8(F), rule_a9(F), rule_a10(F), rule_a11(F), rule_a12(F), rule_a13(F)]
